@@ -122,6 +122,39 @@ func mutations(g modgen.GraphSpec) []mutation {
 			}
 			return false
 		})
+		// the parameter string reaches the module verbatim: every edit of it, white space and case included, can change
+		// what the module computes
+		for _, ed := range []struct {
+			n string
+			f func(string) string
+		}{
+			{"trailing-newline", func(v string) string { return v + "\n" }},
+			{"trailing-space", func(v string) string { return v + " " }},
+			{"leading-space", func(v string) string { return " " + v }},
+			{"upper-case", strings.ToUpper},
+			{"truncated", func(v string) string {
+				if v == "" {
+					return v
+				}
+				return v[:len(v)-1]
+			}},
+			{"emptied", func(string) string { return "" }},
+		} {
+			ed := ed
+			add("param-value-"+ed.n, true, "param", func(m *pbsubstreams.Module, _ *pbsubstreams.Modules) bool {
+				for _, in := range m.Inputs {
+					if p := in.GetParams(); p != nil {
+						nv := ed.f(p.Value)
+						if nv == p.Value {
+							return false
+						}
+						p.Value = nv
+						return true
+					}
+				}
+				return false
+			})
+		}
 		add("add-source-input", true, "inputs", func(m *pbsubstreams.Module, _ *pbsubstreams.Modules) bool {
 			for _, in := range m.Inputs {
 				if in.GetSource() != nil {
